@@ -1,5 +1,6 @@
 import H264.SeiPayloadsFwd
 import H264.C20
+import H264.Tables2
 /-! # C11 — SEI payload parsers (buffering period, pic timing, T.35) recover encoded values
 
 Models: `SeiPayload.readPicTiming s`, `readBufferingPeriod spsById`, `readT35` mirror `PicTiming::read`,
@@ -59,5 +60,13 @@ theorem t35_values_distinct : ∀ b : Fin 197, Generated.t35Value.getD b.val 999
 /-- non-vacuity: an SPS shape with only a VCL HRD still gets its delays (the D7 regression) -/
 example : DelaysWF (some (⟨0, 0, [⟨0, 0, false⟩], 3, 4, 5, 6⟩ : Sps.Hrd)) (some (31, 63)) := by
   exact ⟨31, 63, rfl, by decide, by decide⟩
+
+/-- Table D-1 in the running code (graph extracted through `PicTiming::read` on every run): every pic_struct value is
+accepted as its own distinct value and the number of clock-timestamp slots read is the model's `numClockTs` -/
+theorem code_pic_struct_table : Generated.picStruct.length = 16 ∧
+    (∀ p : Fin 16, (Generated.picStruct.getD p.val (0,0,0)).1 = 1 ∧
+      (Generated.picStruct.getD p.val (0,0,0)).2.2 = SeiPayload.numClockTs p.val) ∧
+    (∀ i j : Fin 16, (Generated.picStruct.getD i.val (0,0,0)).2.1 = (Generated.picStruct.getD j.val (0,0,0)).2.1 → i = j) :=
+  Tables2.picStruct_table
 
 end C11
